@@ -75,6 +75,25 @@ def check(repo: Repo, rep: Report) -> None:
                 rep.ob("J1-completion-join", g, f"{name} inner on_completed: {gt}", stopped and counted,
                        f"{name}: an inner's completion completes downstream without (outer stopped and no active inner) "
                        f"dominating it: the output completes before the outer / the other inners did")
+    # merge_all measures "no inner active" as len(group) == 1: the one remaining member must be the *outer's* holder, so that
+    # holder is in the group before the outer is subscribed (a synchronously emitting outer otherwise sees a group that does
+    # not contain it yet: premature completion with one inner active, or none ever)
+    ma = repo.fn(MG, "merge_all_.subscribe")
+    from ..engines.typestate import source_names
+    srcs_ = set(source_names(ma))
+    outer_sub = [s_ for s_ in sites(ma) if is_subscribe_call(s_.node) and isinstance(s_.node.func.value, ast.Name) and s_.node.func.value.id in srcs_]
+    rep.require(len(outer_sub) == 1, "merge_all: outer subscription")
+    st_ = outer_sub[0].stmt
+    holder_ = u(st_.targets[0].value) if isinstance(st_, ast.Assign) and isinstance(st_.targets[0], ast.Attribute) and st_.targets[0].attr == "disposable" else None
+    groups_ = locals_by_init(ma, lambda v: isinstance(v, ast.Call) and call_name(v) == "CompositeDisposable")
+    adds_ = [s_ for s_ in sites(ma) if isinstance(s_.node, ast.Call) and isinstance(s_.node.func, ast.Attribute) and s_.node.func.attr == "add"
+             and dotted(s_.node.func.value) in groups_ and [u(a) for a in s_.node.args] == [holder_]]
+    from ..ctx import dominates as _dom
+    ok_ = holder_ is not None and bool(adds_) and _dom(adds_[0], outer_sub[0])
+    rep.ob("J4-registered-before-subscribe", ma, "merge_all: the outer's holder is in the group before the outer is subscribed", ok_,
+           "merge_all adds the outer subscription to its group only after source.subscribe(...) returned, although it measures 'no inner "
+           "active' as len(group) == 1: an outer that emits inside subscribe() completes the output while an inner is still active, or "
+           "never completes it")
     # max_concurrent
     root = repo.fn(MG, "merge_.subscribe")
     on_next = root.child("on_next")
